@@ -13,6 +13,7 @@ class C22(Monitor):
     def start(self, w):
         self.poison = {'c': set(), 's': set()}
         self.push_changes = 0
+        self.refused = {'c': 0, 's': 0}
 
     def on_step(self, w, s):
         e = w.eps[s.ep]
@@ -132,7 +133,27 @@ class C22(Monitor):
             self.probe('push_ok')
             if not want and not undecided:
                 self.fail('push-accepted', 'push_stream succeeded although: %s' % ', '.join(k for k, v in conds.items() if v is False), s)
+                return
+            # the emitted PUSH_PROMISE: one block, on the parent, promising that id, and decoding (reference decoder that has
+            # followed every byte this endpoint has emitted) to the request header list of the call - whatever was refused before
+            blocks = [f for f in s.out_frames if f.type in (C.HEADERS, C.PUSH_PROMISE) and f.block_frames is not None]
+            if len(blocks) != 1 or blocks[0].type != C.PUSH_PROMISE:
+                self.fail('promise-emitted', 'push_stream emitted %d header blocks' % len(blocks), s)
+                return
+            f = blocks[0]
+            if f.sid != sid or f.promised != p:
+                self.fail('promise-emitted', 'PUSH_PROMISE on stream %r promising %r' % (f.sid, f.promised), s)
+            elif f.hpack_error:
+                self.probe('promise_after_refusal' if self.refused[s.ep] else 'promise_checked')
+                self.fail('promise-undecodable', 'reference decoder: %s' % f.hpack_error, s, after_refused_push=self.refused[s.ep])
+            else:
+                self.probe('promise_after_refusal' if self.refused[s.ep] else 'promise_checked')
+                got = [(n, v) for n, v, _ in f.headers]
+                if got != wire:
+                    self.fail('promise-headers', 'emitted PUSH_PROMISE does not decode to the request headers of the call', s,
+                              got=got[:8], want=wire[:8], after_refused_push=self.refused[s.ep])
             return
+        self.refused[s.ep] += 1
         self.probe('push_refused')
         if s.out:
             self.fail('refused-push-emitted', 'a raising push_stream emitted bytes', s)
